@@ -247,7 +247,8 @@ prop("C09", level="other", bounded=[],
      explanation="proved: a not-selected scenario runs no hook, calls no step function, does not fail and ends with all steps "
                  "skipped (Scenario.run); effective_tags (generic and outline override) return exactly own plus inherited tags "
                  "(recursive definition over the parent chain); should_run_with_tags of scenarios, outlines, rules and features "
-                 "is own match or some child selected. Bounded: row tags of outline scenarios, the expression evaluation "
+                 "is own match or some child selected; a container's status is skipped only if every run item is skipped "
+                 "(ScenarioContainer / ScenarioOutline.compute_status, shared with C03). Bounded: the expression evaluation "
                  "itself (C07/C08), final statuses of containers over whole runs",
      notes=_RUN_NOTES + ["tag_check(expr, element) is defined as expr.check on any set holding exactly the element's effective "
                          "tags: check() is assumed to depend only on set membership"])
